@@ -48,3 +48,67 @@ harness! {
         std::mem::forget(batch);
     }
 }
+
+// The record id is instantiated (a symbolic id makes seven bitvec copies at symbolic offsets: > 1800 s);
+// the seven intermediates stay symbolic.
+macro_rules! insert_small {
+    ($name:ident, $r:expr) => {
+        harness! {
+            #[kani::unwind(9)]
+            fn $name() {
+                let mut batch = MultiplicationInputsBatch::new(Some(RecordId::from(0usize)), 128, 3);
+                batch.vec.resize_with(2, MultiplicationInputsBlock::default);
+                let raw: [u8; 7] = kani::any();
+                let mut k = 0;
+                while k < 7 {
+                    kani::assume(raw[k] < 8);
+                    k += 1;
+                }
+                let vals: [BA3; 7] = unsafe { std::mem::transmute(raw) };
+                let r: usize = $r;
+                let seg = Segment::from_entries(
+                    SegmentEntry::from_bitslice(vals[0].as_bitslice()),
+                    SegmentEntry::from_bitslice(vals[1].as_bitslice()),
+                    SegmentEntry::from_bitslice(vals[2].as_bitslice()),
+                    SegmentEntry::from_bitslice(vals[3].as_bitslice()),
+                    SegmentEntry::from_bitslice(vals[4].as_bitslice()),
+                    SegmentEntry::from_bitslice(vals[5].as_bitslice()),
+                    SegmentEntry::from_bitslice(vals[6].as_bitslice()),
+                );
+                batch.insert_segment(RecordId::from(r), seg);
+                assert!(batch.vec.len() == 2);
+                // 3-bit segments are padded to 4 bits: record r owns bits [4r % 256, +3) of block (4r) >> 8
+                let blk = (4 * r) >> 8;
+                let pos = (4 * r) % 256;
+                let bit: usize = kani::any();
+                kani::assume(bit < 3);
+                let b = &batch.vec[blk];
+                let got = [b.x_left[pos + bit], b.x_right[pos + bit], b.y_left[pos + bit], b.y_right[pos + bit],
+                           b.prss_left[pos + bit], b.prss_right[pos + bit], b.z_right[pos + bit]];
+                let f: usize = kani::any();
+                kani::assume(f < 7);
+                assert!(got[f] == ((raw[f] >> bit) & 1 == 1), "intermediate f (symbolic) lands in the slot of its record, fields not mixed up");
+                // the slots of all other records stay untouched (zero)
+                let (ob, op): (usize, usize) = (kani::any(), kani::any());
+                kani::assume(ob < 2 && op < 256 && !(ob == blk && op >= pos && op < pos + 3));
+                assert!(!batch.vec[ob].x_left[op] && !batch.vec[ob].z_right[op], "no other record's slot is written");
+                kani::cover!(true);
+                std::mem::forget(batch);
+            }
+        }
+    };
+}
+insert_small!(x03_insert_segment_w3_r0, 0);
+insert_small!(x03_insert_segment_w3_r1, 1);
+insert_small!(x03_insert_segment_w3_r63, 63);
+insert_small!(x03_insert_segment_w3_r64, 64);
+insert_small!(x03_insert_segment_w3_r85, 85);
+insert_small!(x03_insert_segment_w3_r127, 127);
+
+// native replay slot (cargo kani playback): the driver points IPA_VERIF_REPLAY_DIR at a directory
+// holding one file per hook; the generated test calls the harness by its path relative to this module.
+#[cfg(test)]
+mod replay_here {
+    use super::*;
+    include!(concat!(env!("IPA_VERIF_REPLAY_DIR"), "/dzkp_validator.rs"));
+}
